@@ -5,10 +5,22 @@ from ..core import call_name, dotted, src, walk_shallow, canon
 from ..lib import Rules, need, calls_in, mentions_attr
 from ..template import template_func, effects
 from . import dec_common as dc
+from . import refcheck
 
 B = 'pero_ocr.decoding.bag_of_hypotheses'
 CN = 'pero_ocr.decoding.confusion_networks'
 SCALE_NAMES = {'lm_weight', '_lm_scale', 'lm_scale'}
+
+
+LM_WHAT = {
+    'hs_setitem': 'replacing beam entries of an LM state replaces them in EVERY tensor of the state (h and c of an LSTM)',
+    'hs_getitem': 'selecting beam entries selects them in every tensor of the state',
+    'hs_add': 'concatenating states concatenates every tensor of the state along the beam axis',
+    'advance_h0': 'the model is advanced from the given state with the decoder symbols shifted by the unused-prefix length',
+    'log_probs': 'next-symbol scores are the decoder output of the state, restricted to the decoder symbols',
+    'eos_scores': 'end-of-line score is the score of the LM\'s </s> symbol',
+    'initial_h': 'initial state = model state after the start symbol',
+}
 
 
 def run(repo, chk):
@@ -26,12 +38,13 @@ def run(repo, chk):
     R.run('RECUR', dc.template_check, repo, chk, 'RECUR', dc.D + ':update_lm_things', 'update_lm_things',
           'LM state / predictions are permuted with the beam; state advanced only for extended prefixes')
     R.run('RECUR', call_effects, repo, chk)
+    refcheck.run_all(R, repo, chk, 'RECUR', 'lm_ref.py', LM_WHAT)
     R.run('LOOPSTATE', dc.loopstate, repo, chk, 'LOOPSTATE', True)
     R.run('CDEP', cdep, repo, chk)
     R.run('SIBLING', sibling, repo, chk)
     chk.expect('SCALE', 5)
     chk.expect('PAIR', 3)
-    chk.expect('RECUR', 10)
+    chk.expect('RECUR', 28)
     chk.expect('LOOPSTATE', 3)
     chk.expect('CDEP', 1)
     chk.expect('SIBLING', 3)
